@@ -384,7 +384,8 @@ def rules(ck, P):
             stats["violation"] += 1
             chain = P.chain(seen, fq)
             ck.violation("R-HANDLER-TOTAL", s.key, "panic-capable %s site `%s` is reachable from HTTP handler %s and is not shown to be independent of the request: a panic "
-                         "in a handler drops the connection instead of answering 400/404" % (s.kind, s.desc, chain[0].rsplit("::", 1)[-1]), s.loc)
+                         "in a handler drops the connection instead of answering 400/404%s" % (
+                             s.kind, s.desc, chain[0].rsplit("::", 1)[-1], " (reviewed entry lapsed: %s)" % (lapsed or census.entry_lapsed(sh_ or {}, s)) if (lapsed or sh_ is not None) else ""), s.loc)
     ck.anchor("R-HANDLER-TOTAL", "census size", n_sites, 60)
     ck.note("R-HANDLER-TOTAL: %d reachable bodies, %d sites: %s" % (len(seen), n_sites, stats))
 
